@@ -85,10 +85,11 @@ Proof.
   split; [apply knows_commit; assumption|].
   destruct (c_sub x) as [sb|]; [|exact I]. destruct (s_status sb); try exact I.
   destruct Hsub as [Hl Hsub]. split; [exact Hl|]. destruct Hsub as [Hst|Hsn].
-  - left. destruct Hst as (Hp & Hh & He & Hsn & A & D & R & Hc & Ht & HR).
+  - left. destruct Hst as (Hp & Hh & He & Hsn & A & D & R & E & Hc & Ht & HR & HE).
     split; [exact Hp|]. split; [exact Hh|]. split; [exact He|]. split; [exact Hsn|].
-    exists A, (D ++ proj (c_ts x) [b]), R. split; [apply core_commit; assumption|]. split; [|exact HR].
-    rewrite tail_commit, Ht, <- app_assoc. reflexivity.
+    exists A, (D ++ proj (c_ts x) [b]), R, E. split; [apply core_commit; assumption|].
+    split; [|split; [exact HR|exact HE]].
+    rewrite tail_commit, Ht, <- !app_assoc. reflexivity.
   - right. destruct Hsn as (Hs0 & acc & rest & A & B2 & D & s & Hh & Hso). split; [exact Hs0|].
     exists acc, rest, A, B2, (D ++ proj (c_ts x) [b]), s. split; [exact Hh|].
     apply snapok_commit; assumption.
@@ -170,9 +171,9 @@ Proof.
   destruct (c_sub x) as [sb|] eqn:Es; [|exact I]. destruct (s_status sb) eqn:Est; try exact I.
   destruct Hsub as [Hl Hsub]. destruct (Hsb sb eq_refl Est Hl) as [Hl' Ht]. split; [exact Hl'|].
   destruct Hsub as [Hst|Hsn].
-  - left. destruct Hst as (Hp & Hh & He & Hsn & A & D & R & Hc & Htl & HR).
+  - left. destruct Hst as (Hp & Hh & He & Hsn & A & D & R & E & Hc & Htl & HR & HE).
     split; [exact Hp|]. split; [exact Hh|]. rewrite Ee. split; [exact He|]. split; [exact Hsn|].
-    exists A, D, R. split; [eapply core_ext; eauto|]. split; [|exact HR]. rewrite Ht. exact Htl.
+    exists A, D, R, E. split; [eapply core_ext; eauto|]. split; [|split; [exact HR|exact HE]]. rewrite Ht. exact Htl.
   - right. destruct Hsn as (Hs0 & acc & rest & A & B2 & D & s & Hh & Hso). split; [exact Hs0|].
     exists acc, rest, A, B2, D, s. split; [exact Hh|]. eapply snapok_ext; eauto.
 Qed.
@@ -574,7 +575,9 @@ Proof.
 Qed.
 
 Lemma skipped_zero it : skipped 0 it = false.
-Proof. destruct it as [i evs| |]; cbn; try reflexivity. destruct (N.ltb 0 i) eqn:E; [|reflexivity]. cbn. apply N.leb_gt, N.ltb_lt, E. Qed.
+Proof.
+  destruct it as [i evs| |]; cbn; try reflexivity. apply andb_false_iff. right. apply N.ltb_ge. lia.
+Qed.
 
 Lemma drop_skipped_zero l : drop_skipped 0 l = l.
 Proof. destruct l as [|it r]; cbn [drop_skipped]; [reflexivity|]. rewrite skipped_zero. reflexivity. Qed.
@@ -594,26 +597,57 @@ Proof.
   intros H. rewrite <- (app_nil_r R), first_new_skip by exact H. reflexivity.
 Qed.
 
-Lemma skipped_iev snap it : is_iev it -> 1 <= item_idx it <= snap -> skipped snap it = true.
+Lemma skipped_iev snap it : is_iev it -> 1 <= item_idx it < snap -> skipped snap it = true.
 Proof.
   destruct it as [i evs| |]; cbn; try contradiction. intros _ [H1 H2].
-  apply andb_true_iff. split; [apply N.ltb_lt; lia|apply N.leb_le; lia].
+  apply andb_true_iff. split; apply N.ltb_lt; lia.
 Qed.
 
-Lemma not_skipped_gt snap it : snap < item_idx it -> skipped snap it = false.
+Lemma not_skipped_ge snap it : snap <= item_idx it -> skipped snap it = false.
 Proof.
   destruct it as [i evs| |]; cbn; try reflexivity. intros H.
-  apply andb_false_iff. right. apply N.leb_gt. exact H.
+  apply andb_false_iff. right. apply N.ltb_ge. exact H.
+Qed.
+
+(* an increasing list bounded by s: everything is below s except possibly its last element *)
+Lemma split_at_top (s : N) (l : list item) :
+  incr (map item_idx l) -> Forall (fun it => item_idx it <= s) l ->
+  exists l1 l2, l = l1 ++ l2 /\ Forall (fun it => item_idx it < s) l1 /\
+                (l2 = [] \/ exists e, l2 = [e] /\ item_idx e = s).
+Proof.
+  induction l as [|a l' _] using rev_ind; intros Hinc Hle.
+  - exists [], []. split; [reflexivity|]. split; [constructor|left; reflexivity].
+  - apply Forall_app in Hle as [Hle' Ha]. apply Forall_cons_iff in Ha as [Ha _].
+    rewrite map_app in Hinc. apply incr_app_inv in Hinc as (_ & _ & Hlt).
+    assert (Hl' : Forall (fun it => item_idx it < item_idx a) l').
+    { rewrite Forall_forall. intros it Hit. apply Hlt; [apply in_map, Hit|left; reflexivity]. }
+    destruct (N.eq_dec (item_idx a) s) as [E|E].
+    + exists l', [a]. split; [reflexivity|]. split; [rewrite <- E; exact Hl'|right; exists a; auto].
+    + exists (l' ++ [a]), []. split; [rewrite app_nil_r; reflexivity|]. split; [|left; reflexivity].
+      apply Forall_app. split; [eapply Forall_impl; [|exact Hl']; cbn; intros; lia|constructor; [lia|constructor]].
+Qed.
+
+(* re-applying the events of a T-view on top of itself *)
+Lemma view_apply T evs view M :
+  (forall e, In e evs -> matches T (e_key e) = true) ->
+  (forall k, aget k view = if matches T k then aget k M else None) ->
+  forall k, aget k (apply evs view) = if matches T k then aget k (apply evs M) else None.
+Proof.
+  intros Hm HM k. rewrite (aget_apply k evs view), (aget_apply k evs M).
+  destruct (matches T k) eqn:Ek.
+  - destruct (lastev k evs); [reflexivity|]. rewrite HM, Ek. reflexivity.
+  - rewrite (lastev_nomatch T) by assumption. rewrite HM, Ek. reflexivity.
 Qed.
 
 (* delivering the next private item (snapshot framing) *)
 Lemma cinv_deliver_pre h ob r x sb it pre' :
+  incr (map item_idx (proj (c_ts x) (h_log h))) ->
   (forall it', In it' (proj (c_ts x) (h_log h)) -> 1 <= item_idx it' <= h_hi h) ->
   cinv h ob r x -> c_sub x = Some sb -> s_status sb = Open ->
   drop_skipped (s_snap sb) (s_pre sb) = it :: pre' ->
   cinv h ob r (handle (h_epoch h) x (Sub Open pre' (s_off sb) (s_buf sb) (snap_after (s_snap sb) it)) it).
 Proof.
-  intros Hbnd (Hi & Hep & Hz & Hs & Hk & Hsub) Es Est Epre. rewrite Es, Est in Hsub.
+  intros Hinc Hbnd (Hi & Hep & Hz & Hs & Hk & Hsub) Es Est Epre. rewrite Es, Est in Hsub.
   destruct Hsub as [Hl [Hst|Hsn]].
   { destruct Hst as (Hp & _). rewrite Hp in Epre. discriminate. }
   destruct Hsn as (Hs0 & acc & rest & A & B2 & D & s & Hh & Hso).
@@ -629,18 +663,26 @@ Proof.
         - rewrite Hsp, app_assoc. reflexivity.
         - intros k. specialize (Hv k). cbn [ievs flat_map] in Hv. rewrite app_nil_r in Hv.
           rewrite <- Hv. apply meq_apply. apply Hz. eapply Hs; eauto. }
-      assert (HR : Forall (fun it => skipped s it = true) B2).
+      assert (HB2 : incr (map item_idx B2)).
+      { rewrite Hsp, !map_app in Hinc. apply incr_app_inv in Hinc as (_ & Hinc & _).
+        apply incr_app_inv in Hinc as (Hinc & _ & _). exact Hinc. }
+      apply Forall_app in Hle as [HleA HleB].
+      destruct (split_at_top s B2 HB2 HleB) as (R & E & EB & HRlt & HE).
+      assert (HR : Forall (fun it => skipped s it = true) R).
       { rewrite Forall_forall. intros it Hit.
-        assert (In it (proj (c_ts x) (h_log h))) as Hin by (rewrite Hsp, !in_app_iff; auto).
+        assert (In it (proj (c_ts x) (h_log h))) as Hin by (rewrite Hsp, EB, !in_app_iff; auto).
         apply skipped_iev.
         - pose proof (proj_iev (c_ts x) (h_log h)) as Hiev. rewrite Forall_forall in Hiev. apply Hiev, Hin.
-        - split; [apply Hbnd, Hin|]. rewrite Forall_forall in Hle. apply Hle. rewrite in_app_iff. auto. }
+        - split; [apply Hbnd, Hin|]. rewrite Forall_forall in HRlt. apply HRlt, Hit. }
+      assert (Hle : Forall (fun it => item_idx it <= s) (A ++ B2)) by (apply Forall_app; auto).
       unfold cinv, knows. cbn [c_idx c_epoch c_view c_h c_sub c_ts s_status].
       split; [lia|]. split; [lia|]. split; [intros ->; lia|]. split; [intros ? H; discriminate|].
       split; [right; left; split; [reflexivity|exists (A ++ B2), D; exact Hc]|].
       split; [exact Hl|]. left. cbn [s_pre s_off s_snap c_h c_epoch c_ts c_view c_idx].
       split; [reflexivity|]. split; [left; reflexivity|]. split; [reflexivity|]. split; [lia|].
-      exists (A ++ B2), D, B2. split; [exact Hc|]. split; [exact Ht|exact HR].
+      exists (A ++ B2), D, R, E. split; [exact Hc|]. split; [rewrite Ht, EB, <- app_assoc; reflexivity|].
+      split; [exact HR|]. destruct HE as [->|(e & -> & He)]; [left; reflexivity|].
+      right. exists (A ++ R), e. split; [reflexivity|]. split; [rewrite EB, app_assoc; reflexivity|auto].
     + (* one more snapshot item *)
       cbn [app] in Hpre. injection Hpre as <- ->.
       destruct Hso as [Hsp Hr Hv Ht Hle Hgt Hss]. inversion Hr as [|? ? Hit Hr']; subst.
@@ -672,7 +714,7 @@ Proof.
   destruct Hsub as [Hl [Hst|Hsn]].
   2: { destruct Hsn as (_ & acc & rest & A & B2 & D & s & [[_ Hpre]|(_ & _ & Hpre)] & _);
        rewrite Epre in Hpre; [destruct rest; discriminate|discriminate]. }
-  destruct Hst as (_ & Hh & He & Hsn & A & D & R & Hc & Ht & HR).
+  destruct Hst as (_ & Hh & He & Hsn & A & D & R & E & Hc & Ht & HR & HE).
   destruct Hc as [Hsp Hv Hle Hgt Hss].
   destruct Hl as (tb & -> & Hoff & Hid). rewrite (Hitems tb eq_refl Hid) in Hfn.
   unfold tail in Ht. cbn [ob_items] in Ht.
@@ -681,12 +723,19 @@ Proof.
        rewrite first_new_none in Hfn; [discriminate|]. rewrite HRl in HR. apply Forall_app in HR. apply HR. }
   rewrite HS, first_new_skip in Hfn by exact HR.
   destruct l as [|d l']; [discriminate|]. cbn [first_new] in Hfn.
-  assert (Hind : In d D) by (rewrite HD; left; reflexivity).
-  assert (Hdgt : c_idx x < item_idx d) by (rewrite Forall_forall in Hgt; apply Hgt, Hind).
-  rewrite not_skipped_gt in Hfn by lia. injection Hfn as <- <-.
-  assert (Hin : In d (proj (c_ts x) (h_log h))) by (rewrite Hsp, in_app_iff; auto).
+  (* d is the head of E ++ D: the batch at the snapshot's own index, or a later one *)
+  assert (Hdge : s_snap sb <= item_idx d /\ c_idx x <= item_idx d).
+  { destruct HE as [->|(A' & e & -> & EA & Hei & Hcs)]; cbn [app] in HD.
+    - assert (In d D) as Hind by (rewrite HD; left; reflexivity).
+      rewrite Forall_forall in Hgt. specialize (Hgt d Hind). lia.
+    - injection HD as Hed _. subst e. lia. }
+  assert (Hin : In d (proj (c_ts x) (h_log h))).
+  { rewrite Hsp. destruct HE as [->|(A' & e & -> & EA & _)]; cbn [app] in HD.
+    - rewrite in_app_iff. right. rewrite HD. left; reflexivity.
+    - injection HD as Hed _. subst e. rewrite EA, !in_app_iff. left; right; left; reflexivity. }
+  rewrite not_skipped_ge in Hfn by lia. injection Hfn as <- <-.
   pose proof (proj_iev (c_ts x) (h_log h)) as Hiev. rewrite Forall_forall in Hiev.
-  specialize (Hiev d Hin). destruct d as [i evs| |]; try contradiction. cbn [item_idx] in Hdgt.
+  specialize (Hiev d Hin). destruct d as [i evs| |]; try contradiction. cbn [item_idx] in Hdge.
   pose proof (proj_evs_match _ _ _ _ Hin) as Hm.
   destruct (Hbnd _ Hin) as [Hi1 Hi2]. cbn [item_idx] in Hi1, Hi2.
   assert (Hskip : skipn (S (s_off sb + List.length R)) (tb_items tb) = l').
@@ -700,38 +749,53 @@ Proof.
                        (Some (Sub Open [] (S (s_off sb + List.length R)) (s_buf sb) (s_snap sb))) (c_epoch x)).
   { unfold handle. destruct Hh as [-> | ->]; reflexivity. }
   rewrite Hx'. clear Hx'.
-  assert (Hview : forall k, aget k (apply evs (c_view x)) =
-                            if matches (c_ts x) k then aget k (apply (ievs (A ++ [IEv i evs])) (h_base h)) else None).
-  { intros k. rewrite ievs_app, apply_app. cbn [ievs flat_map]. rewrite app_nil_r.
-    rewrite (aget_apply k evs (c_view x)), (aget_apply k evs (apply (ievs A) (h_base h))).
-    destruct (matches (c_ts x) k) eqn:Ek.
-    - destruct (lastev k evs); [reflexivity|]. rewrite Hv, Ek. reflexivity.
-    - rewrite (lastev_nomatch (c_ts x)) by assumption. rewrite Hv, Ek. reflexivity. }
-  destruct D as [|d0 D']; [discriminate|]. cbn [app] in HD. injection HD as Hd0 HD. subst d0.
-  apply Forall_cons_iff in Hgt as [_ Hgt'].
-  assert (Hc' : core h (c_ts x) (apply evs (c_view x)) i (A ++ [IEv i evs]) D').
-  { constructor.
-    - rewrite Hsp, <- app_assoc. reflexivity.
-    - exact Hview.
-    - apply Forall_app. split.
-      + eapply Forall_impl; [|exact Hle]. cbn. intros; lia.
-      + constructor; [cbn [item_idx]; lia|constructor].
-    - rewrite Hsp in Hinc. rewrite map_app in Hinc. apply incr_app_inv in Hinc as (_ & Hd & _).
-      cbn [map] in Hd. inversion Hd as [|? ? _ Hf]; subst. rewrite Forall_forall in *.
-      intros it' Hit'. apply Hf. apply in_map, Hit'.
-    - lia. }
-  unfold cinv, knows. cbn [c_idx c_epoch c_view c_h c_sub c_ts s_status].
-  split; [lia|]. split; [exact Hep|]. split; [intros ->; lia|]. split; [intros ? H; discriminate|].
-  split; [right; left; split; [exact He|eexists _, _; exact Hc']|].
-  split.
+  assert (Hlive : buf_live (Some tb) (S (s_off sb + List.length R)) (Some (s_buf sb))).
   { exists tb. split; [reflexivity|]. split; [|exact Hid].
     assert (List.length (skipn (s_off sb) (tb_items tb)) = (List.length R + S (List.length l'))%nat) as Hlen
       by (rewrite HS, app_length; reflexivity).
-    rewrite skipn_length in Hlen. cbn [s_off]. lia. }
-  left. cbn [s_pre s_off s_snap c_h c_epoch c_ts c_view c_idx].
-  split; [reflexivity|]. split; [left; reflexivity|]. split; [exact He|]. split; [lia|].
-  exists (A ++ [IEv i evs]), D', []. split; [exact Hc'|]. split; [|constructor].
-  unfold tail. cbn [ob_items app]. rewrite Hskip, HD. reflexivity.
+    rewrite skipn_length in Hlen. lia. }
+  pose proof (view_apply (c_ts x) evs (c_view x) (apply (ievs A) (h_base h)) Hm Hv) as Hview.
+  destruct HE as [->|(A' & e & -> & EA & Hei & Hcs)]; cbn [app] in HD.
+  - (* an event committed after everything the view contains *)
+    destruct D as [|d0 D']; [discriminate|]. injection HD as Hd0 HD. subst d0.
+    apply Forall_cons_iff in Hgt as [Hdgt Hgt']. cbn [item_idx] in Hdgt.
+    assert (Hc' : core h (c_ts x) (apply evs (c_view x)) i (A ++ [IEv i evs]) D').
+    { constructor.
+      - rewrite Hsp, <- app_assoc. reflexivity.
+      - intros k. rewrite ievs_app, apply_app. cbn [ievs flat_map]. rewrite app_nil_r. apply Hview.
+      - apply Forall_app. split.
+        + eapply Forall_impl; [|exact Hle]. cbn. intros; lia.
+        + constructor; [cbn [item_idx]; lia|constructor].
+      - rewrite Hsp in Hinc. rewrite map_app in Hinc. apply incr_app_inv in Hinc as (_ & Hd & _).
+        cbn [map] in Hd. inversion Hd as [|? ? _ Hf]; subst. rewrite Forall_forall in *.
+        intros it' Hit'. apply Hf. apply in_map, Hit'.
+      - lia. }
+    unfold cinv, knows. cbn [c_idx c_epoch c_view c_h c_sub c_ts s_status].
+    split; [lia|]. split; [exact Hep|]. split; [intros ->; lia|]. split; [intros ? H; discriminate|].
+    split; [right; left; split; [exact He|eexists _, _; exact Hc']|].
+    split; [exact Hlive|].
+    left. cbn [s_pre s_off s_snap c_h c_epoch c_ts c_view c_idx].
+    split; [reflexivity|]. split; [left; reflexivity|]. split; [exact He|]. split; [lia|].
+    exists (A ++ [IEv i evs]), D', [], []. split; [exact Hc'|]. split; [|split; [constructor|left; reflexivity]].
+    unfold tail. cbn [ob_items app]. rewrite Hskip, HD. reflexivity.
+  - (* the batch at the snapshot's own index, delivered once more: the view does not change *)
+    injection HD as Hed HD. subst e. cbn [item_idx] in Hei.
+    assert (Hc' : core h (c_ts x) (apply evs (c_view x)) i A D).
+    { constructor.
+      - exact Hsp.
+      - intros k. rewrite (Hview k). destruct (matches (c_ts x) k); [|reflexivity].
+        rewrite EA, ievs_app. cbn [ievs flat_map]. rewrite app_nil_r. apply apply_replay.
+      - rewrite Hei. exact Hle.
+      - rewrite Hei. exact Hgt.
+      - rewrite Hei. exact Hss. }
+    unfold cinv, knows. cbn [c_idx c_epoch c_view c_h c_sub c_ts s_status].
+    split; [lia|]. split; [exact Hep|]. split; [intros ->; lia|]. split; [intros ? H; discriminate|].
+    split; [right; left; split; [exact He|eexists _, _; exact Hc']|].
+    split; [exact Hlive|].
+    left. cbn [s_pre s_off s_snap c_h c_epoch c_ts c_view c_idx].
+    split; [reflexivity|]. split; [left; reflexivity|]. split; [exact He|]. split; [lia|].
+    exists A, D, [], []. split; [exact Hc'|]. split; [|split; [constructor|left; reflexivity]].
+    unfold tail. cbn [ob_items app]. rewrite Hskip, HD. reflexivity.
 Qed.
 
 (* replacing one client by a client on the same topic/subject with the same kind of subscription *)
@@ -1063,7 +1127,7 @@ Proof.
   split; [exact He|]. split; [lia|]. fold T in Hc. destruct Hc as [Hsp Hv Hle Hgt Hss].
   rewrite Hsplit in Hsp.
   destruct (split_unique (c_idx x0) _ _ _ _ HPle HQgt Hle Hgt Hsp) as [EP EQ].
-  exists A, D, []. split; [|split; [|constructor]].
+  exists A, D, [], []. split; [|split; [|split; [constructor|left; reflexivity]]].
   - constructor; auto. rewrite Hsplit, EP, EQ. reflexivity.
   - unfold tail. cbn [ob_items app]. rewrite skipn_all, EQ. reflexivity.
 Qed.
